@@ -38,6 +38,7 @@ pub mod c32;
 pub mod c33;
 pub mod c34;
 pub mod c35;
+pub mod x01;
 
 fn pid(mode: &str) -> &str {
     mode.split('.').next().unwrap_or(mode)
@@ -80,6 +81,7 @@ pub fn replay(ctx: &Ctx, case: &Value) -> Outcome {
         "C33" => c33::replay(ctx, case),
         "C34" => c34::replay(ctx, case),
         "C35" => c35::replay(ctx, case),
+        "X01" => x01::replay(ctx, case),
         other => panic!("unknown mode {other}"),
     }
 }
@@ -121,6 +123,7 @@ pub fn drive(ctx: &Ctx) -> Summary {
         "C33" => c33::drive(ctx),
         "C34" => c34::drive(ctx),
         "C35" => c35::drive(ctx),
+        "X01" => x01::drive(ctx),
         other => panic!("unknown mode {other}"),
     }
 }
